@@ -9,10 +9,15 @@ for d in sorted(glob.glob('/verif/seeded/*/')):
     ob = (det.get('failing_obligations', {}).get(own) or [''])[0]
     mm = re.match(r'(FAIL|UNDECIDED)\s+(\S+)', ob)
     rule = mm.group(2) if mm else ('(own check silent)' if det else '')
-    rows.append('| %s | %s | %s | %s |' % (os.path.basename(d.rstrip('/')), own, ', '.join(det.get('properties_whose_check_fires', [])) or '—', rule))
+    fp = m.get('first_pass')
+    if fp is None:
+        first = 'round 1 (see text)'
+    else:
+        first = ('own check fired' if fp['own_property_check_fired'] else ('only ' + ', '.join(fp['checks_that_fired']) if fp['checks_that_fired'] else 'missed by every check'))
+    rows.append('| %s | %s | %s | %s | %s |' % (os.path.basename(d.rstrip('/')), own, first, ', '.join(det.get('properties_whose_check_fires', [])) or '—', rule))
 p = '/verif/DESIGN.md'
 s = open(p).read()
-hdr = '| seeded change | breaks | checks that fire | rule of the own property |\n|---|---|---|---|\n'
+hdr = '| seeded change | breaks | first pass (held out) | checks that fire now | rule of the own property |\n|---|---|---|---|---|\n'
 i = s.index(hdr) + len(hdr)
 j = s.index('\n\n', i)
 s = s[:i] + '\n'.join(rows) + s[j:]
